@@ -87,6 +87,16 @@ CHECKS = {
              'computed by harness/worker.py in the interpreter under test. Token spacing is judged through round trip only.',
         technique='TLA+ (TLC) exhaustive check of the parenthesisation table + replay of every enumerated cell/chain into the real printer',
         design_ref='3.4, 5 (C02)'),
+    'C12': dict(
+        specs='Quote.tla, Trace_Eval.tla',
+        text='Quote.tla: for every string over 11 character classes up to length 4 (quick) / 5 (thorough) x quote styles x contexts, the text that the '
+             'transcribed escaping rules hand to eval() lexes, under an independent literal lexer, as closed literals with no residue (TLC, '
+             'exhaustive). Trace_Eval.tla (EvalMonitor): audit-event traces of the real minify() on every enumerated string in nine contexts (with '
+             'payloads that would import a canary), on folding attacks, the shape bank and the corpus: each exec must directly follow compilation '
+             'of a closed literal expression and be closed bytecode; no import/open/spawn/socket event may mention a canary.',
+        note='Relies on sys.addaudithook completeness (CPython 3.12 only); loads of the minifier\'s own modules are exempt; attribution by canary names.',
+        technique='TLA+ (TLC) exhaustive check of the quoting rules against a literal lexer + trace validation of audit-event traces',
+        design_ref='3.5, 5 (C12)'),
     'C08': dict(
         specs='Pipeline.tla, PipelineS.tla, Trace_Pipeline.tla',
         text='TLC exhaustively checks the implementation-shaped pipeline model against the envelope (all 2^14 gating option sets x taint x '
